@@ -7,6 +7,7 @@ open NanoVerif
 def handle (fam : String) (rest : List String) : Option String :=
   match fam with
   | "objective" => Driver.Objective.handle rest
+  | "iter" => Driver.Objective.handleIterAll rest      -- histories on one flatten_iterator_t (model: Model/Iterator.lean)
   | "reduce" => Driver.Reduce.handle rest   -- `reduce sum`: sum_reduce of reduce.h on explicit schedules (model: Model/Reduce.lean)
   | _ => none
 
